@@ -26,7 +26,7 @@ def gen_history(src, *, nsteps=(3, 7), hb_exp=(-1.6, -0.6), p_reject=0.4, rel_lo
     return gen_script(src, n, hb, p_reject=p_reject, rel_lo=rel_lo)
 
 
-PLACE_KINDS = [("inside", 4), ("at_end", 2), ("eps_window", 2), ("multi", 1.5), ("near_miss", 0.0)]
+PLACE_KINDS = [("inside", 4), ("at_end", 2), ("eps_window", 2), ("multi", 1.5), ("coincide", 0.7), ("near_miss", 0.0)]
 
 
 def gen_placements(src, nsteps, n=(1, 4), allow_near_miss=False):
@@ -45,6 +45,8 @@ def gen_placements(src, nsteps, n=(1, 4), allow_near_miss=False):
             out.append({"kind": "eps_window", "k": k, "mult": src.choice("mult", [0.5, -0.5, 0.9, -0.9, 0.1])})
         elif kind == "multi":
             out.append({"kind": "multi", "k": k, "n": src.randint("n", 2, 3)})
+        elif kind == "coincide":
+            out.append({"kind": "coincide", "k": k})  # two checkpoints closer than eps, both at a step end
         else:
             out.append({"kind": "near_miss", "k": k, "delta_rel": 10 ** src.uniform("dr", -7, -4),
                         "side": src.choice("side", [1, -1])})
